@@ -112,6 +112,11 @@ class Server(object):
 if __name__ == '__main__':
     from multiprocessing.connection import Listener
 
+    # Python puts the directory of a script first on the module search path:
+    # supp's own files are no top-level modules of the project being edited
+    if sys.path and os.path.abspath(sys.path[0]) == os.path.dirname(os.path.abspath(__file__)):
+        del sys.path[0]
+
     if 'SUPP_LOG_LEVEL' in os.environ:
         level = int(os.environ['SUPP_LOG_LEVEL'])
     else:
